@@ -9,6 +9,7 @@ from typing import Any
 
 from .errors import AnalysisError, BudgetExceeded
 from .values import (
+    SPos,
     ADict,
     AIter,
     AList,
@@ -657,7 +658,7 @@ def _b_minmax(which):
             return items[pick]
         if len(items) == 1:
             return items[0]
-        if all(isinstance(k_, (Obj, tuple)) for k_ in keys):
+        if all(isinstance(k_, (Obj, tuple)) for k_ in keys) or any(isinstance(k_, SPos) for k_ in keys):
             import ast as _ast
 
             best = 0
@@ -2322,6 +2323,13 @@ def _str_method(interp, s: Any, name: str, args: list, kwargs: dict) -> Any:
         if not isinstance(args[0], str):
             raise interp.unsupported("partition with symbolic separator")
         return _rpartition(interp, s, args[0], False)
+    if name in ("find", "rfind", "index", "rindex") and isinstance(s, SStr) and len(args) == 1 and isinstance(args[0], str) and args[0]:
+        h, sep, _t = _rpartition(interp, s, args[0], name.startswith("r"))
+        if not sep:
+            if name in ("index", "rindex"):
+                raise interp.exc("ValueError", "substring not found")
+            return -1
+        return SPos(s, h, 0)
     if name == "join":
         items = interp.drain(args[0])
         out = []
@@ -2627,7 +2635,92 @@ def getitem(interp, base: Any, idx: Any) -> Any:
     raise interp.unsupported(f"subscript of {base!r}")
 
 
+def _parts(v: Any) -> list:
+    return list(v.parts) if isinstance(v, SStr) else ([v] if v else [])
+
+
+def _split_at(interp, s: SStr, pos: Any) -> tuple[Any, Any]:
+    """(s[:pos], s[pos:]) for a symbolic position of s (or 0 / None)."""
+    if pos is None or pos == 0:
+        return "", s
+    if not isinstance(pos, SPos) or pos.s != s:
+        raise interp.unsupported(f"slice of a symbolic string at {pos!r}")
+    hp, sp = _parts(pos.head), _parts(s)
+    # an atom of s that was split on this path (rpartition/find decided that it contains the separator) is replaced by
+    # its recorded decomposition head + sep + tail when the position lies inside it
+    if any(isinstance(p, Atom) and p not in sp for p in hp):
+        expanded: list = []
+        for p in sp:
+            hit = None
+            if isinstance(p, Atom):
+                for key, whole in interp.assume.items():
+                    if isinstance(key, tuple) and len(key) == 4 and key[0] == "split" and whole == p and key[1] in hp:
+                        hit = key
+                        break
+            if hit is not None:
+                expanded += [hit[1], hit[2], hit[3]]
+            else:
+                expanded.append(p)
+        sp = _parts(sstr(*expanded))
+    # head is a prefix of s part-wise, its last constant part possibly a proper prefix of the matching part of s
+    i = 0
+    rest: list = []
+    for i, p in enumerate(hp):
+        if i >= len(sp):
+            raise interp.unsupported("position outside the string")
+        if p == sp[i]:
+            continue
+        if isinstance(p, str) and isinstance(sp[i], str) and sp[i].startswith(p) and i == len(hp) - 1:
+            rest = [sp[i][len(p) :]]
+            break
+        raise interp.unsupported(f"position {pos!r} is not on a part boundary of {s!r}")
+    else:
+        i = len(hp) - 1
+    tail = rest + sp[len(hp) :] if rest else sp[len(hp) :]
+    head = list(hp)
+    d = pos.delta
+    while d > 0:
+        if not tail or not isinstance(tail[0], str):
+            raise interp.unsupported(f"position {pos!r} moves into a symbolic part")
+        take = min(d, len(tail[0]))
+        head.append(tail[0][:take])
+        tail[0] = tail[0][take:]
+        if not tail[0]:
+            tail.pop(0)
+        d -= take
+    while d < 0:
+        if not head or not isinstance(head[-1], str):
+            raise interp.unsupported(f"position {pos!r} moves into a symbolic part")
+        take = min(-d, len(head[-1]))
+        tail.insert(0, head[-1][len(head[-1]) - take :])
+        head[-1] = head[-1][: len(head[-1]) - take]
+        if not head[-1]:
+            head.pop()
+        d += take
+    return sstr(*head), sstr(*tail)
+
+
 def getslice(interp, base: Any, lo: Any, hi: Any, step: Any) -> Any:
+    if isinstance(base, ExtObj) and base.kind in ("rdflib.URIRef", "rdflib.BNode", "rdflib.Literal"):
+        from . import models_rdflib
+
+        base = models_rdflib.str_of(interp, base)  # slicing a str subclass gives a plain str
+    if isinstance(base, SStr) and step is None and (isinstance(lo, SPos) or isinstance(hi, SPos)) and all(x is None or x == 0 or isinstance(x, SPos) for x in (lo, hi)):
+        if hi is None:
+            return _split_at(interp, base, lo)[1]
+        upto, _rest = _split_at(interp, base, hi)
+        if lo is None or lo == 0:
+            return upto
+        before, _ = _split_at(interp, base, lo)
+        bp, up = _parts(before), _parts(upto)
+        # upto = before + middle  (both are prefixes of base)
+        if len(bp) <= len(up) and all(a == b for a, b in zip(bp[:-1], up)) and (not bp or bp[-1] == up[len(bp) - 1] or (isinstance(bp[-1], str) and isinstance(up[len(bp) - 1], str) and up[len(bp) - 1].startswith(bp[-1]))):
+            if not bp:
+                return upto
+            last = up[len(bp) - 1]
+            mid = ([last[len(bp[-1]) :]] if isinstance(last, str) and last != bp[-1] else []) + up[len(bp) :]
+            return sstr(*mid)
+        return ""
     if isinstance(base, (tuple, str, bytes)) and all(x is None or isinstance(x, int) for x in (lo, hi, step)):
         return base[lo:hi:step]
     if isinstance(base, AList) and all(x is None or isinstance(x, int) for x in (lo, hi, step)):
@@ -2894,7 +2987,32 @@ def eq_ext(interp, a: Any, b: Any) -> Any:
         return a.attrs["data"] == b
     if isinstance(b, ExtObj) and b.kind == "bytes:header" and isinstance(a, bytes):
         return b.attrs["data"] == a
+    if isinstance(a, ExtObj) and isinstance(b, ExtObj) and a.kind == b.kind == "bytes:frame":
+        # serialisations of structurally equal messages are equal byte strings (deterministic field order; maps only
+        # when serialised deterministically)
+        from .freeze import freeze
+
+        if freeze(a.attrs["msg"]) == freeze(b.attrs["msg"]):
+            if a.attrs.get("deterministic") or b.attrs.get("deterministic") or not _has_map(a.attrs["msg"]):
+                return True
+            return Unknown(("eq-nondeterministic-bytes", a.uid, b.uid), "equality of non-deterministic serialisations")
+        return False
+    if isinstance(a, ExtObj) and a.kind == "bytes:frame" and isinstance(b, bytes):
+        return False if b else Unknown(("frame-empty", a.uid), "serialised frame == b''")
+    if isinstance(b, ExtObj) and b.kind == "bytes:frame" and isinstance(a, bytes):
+        return False if a else Unknown(("frame-empty", b.uid), "serialised frame == b''")
     return a is b
+
+
+def _has_map(m: Msg) -> bool:
+    for v in m.fields.values():
+        if isinstance(v, ADict) and len(v.pairs) > 1:
+            return True
+        if isinstance(v, Msg) and _has_map(v):
+            return True
+        if isinstance(v, AList) and any(isinstance(x, Msg) and _has_map(x) for x in v.items):
+            return True
+    return False
 
 
 def contains_ext(interp, container: Any, item: Any) -> Any:
